@@ -12,5 +12,6 @@ theorem prog_ft3 : chkProg false true 3 = true := by decide +kernel
 theorem prog_ff4 : chkProg false false 4 = true := by decide +kernel
 theorem prog_ft4 : chkProg false true 4 = true := by decide +kernel
 theorem prog_ff7 : chkProg false false 7 = true := by decide +kernel
+theorem enter_ft7 : chkEnter false true 7 = true := by decide +kernel
 
 end Canopen.P402
